@@ -597,6 +597,7 @@ func checkC06(c *Ctx, r *Report) {
 	r.rule("C06.R2", "granted volume = min(AllowedUnits, requested) in reserve mode, 0 in debit mode", 2)
 	r.rule("C06.R3", "final-unit indication set exactly when the account server signalled TERMINATE", 1)
 	r.rule("C06.R4", "account server grants min(request, balance) (shared with C07.R1)", 4)
+	r.rule("C06.R5", "the rating function converts reserved money into units by floor division: AllowedUnits = quota div unit cost, Price = units x unit cost (shared with C08.R2)", 2)
 
 	m := buildChfModel(c)
 	f, fe := m.f, m.fe
@@ -777,4 +778,7 @@ func checkC06(c *Ctx, r *Report) {
 
 	// ---- R4
 	abmfRules(c, r, "C06.R4", "", "", "", "", "")
+
+	// ---- R5: the CHF trusts the rating function to turn money into units
+	rfRules(c, r, "", "C06.R5", "", "", "C06.R5")
 }
